@@ -62,10 +62,12 @@ fn build_fixture() -> Fixture {
 	std::fs::create_dir_all(proj.join(".git")).expect("mkdir");
 	write(&proj.join(".git/HEAD"), "ref: refs/heads/main\n");
 	write(&proj.join(".gitignore"), "vcs-local.txt\n");
-	write(&proj.join(".ignore"), "generic-local.txt\n");
+	// three of the files end without a line terminator (legal, and what concatenating
+	// implementations trip over)
+	write(&proj.join(".ignore"), "generic-local.txt");
 	write(&root.join("xdg/git/ignore"), "vcs-global.txt\n");
-	write(&root.join("xdg/watchexec/ignore"), "app-global.txt\n");
-	write(&root.join("explicit/my.ignore"), "file-ign.txt\n");
+	write(&root.join("xdg/watchexec/ignore"), "app-global.txt");
+	write(&root.join("explicit/my.ignore"), "file-ign.txt");
 	write(&root.join("explicit/my.filters"), "*.kept\n");
 	std::fs::create_dir_all(root.join("home")).expect("mkdir");
 	for f in ["file-ign.txt", "pat-ign.txt", "free.txt"] {
